@@ -932,7 +932,7 @@ class vPeriod(TimeBase):
         self.params = Parameters({'value': 'PERIOD'})
         # set the timezone identifier
         # does not support different timezones for start and end
-        tzid = tzid_from_dt(start)
+        tzid = tzid_from_dt(start) if isinstance(start, datetime) else None
         if tzid and tzid != 'UTC':
             self.params['TZID'] = tzid
 
@@ -950,10 +950,10 @@ class vPeriod(TimeBase):
 
     def to_ical(self):
         if self.by_duration:
-            return (vDatetime(self.start).to_ical() + b'/'
+            return (vDDDTypes(self.start).to_ical() + b'/'
                     + vDuration(self.duration).to_ical())
-        return (vDatetime(self.start).to_ical() + b'/'
-                + vDatetime(self.end).to_ical())
+        return (vDDDTypes(self.start).to_ical() + b'/'
+                + vDDDTypes(self.end).to_ical())
 
     @staticmethod
     def from_ical(ical, timezone=None):
